@@ -464,13 +464,22 @@ FMT_NOYEAR = ["%b %d %H:%M:%S", "%m-%d %H:%M:%S", "%m/%d %H:%M:%S", "%d %b %H:%M
 LIST_YEAR = [["%Y-%m-%d %H:%M:%S", "%d/%b/%Y:%H:%M:%S"], ["%d/%b/%Y:%H:%M:%S", "%Y%m%d-%H%M%S"],
              ["%Y-%m-%dT%H:%M:%S", "%a %b %d %H:%M:%S %Y"]]
 LIST_NOYEAR = [["%b %d %H:%M:%S", "%m/%d %H:%M:%S"], ["%m-%d %H:%M:%S", "%d %b %H:%M:%S"]]
-BASES = [2000, 2004, 2008, 2012, 2016, 2020, 2024]          # base+1 .. base+3 are not leap years
+YEAR_SHIFTS = [-16, -12, -8, -4, 0, 0, 4, 8, 20, 40]         # 2003..2061: two-digit years stay unambiguous
 
 
-def stamp(base, y, d, slot, slots):
-    day = datetime.date(base + y, 1, 1) + datetime.timedelta(days=d - 1)
+def stamp(y, mo, d, slot, slots):
     sec = slots[slot]
-    return datetime.datetime(day.year, day.month, day.day, sec // 3600, (sec // 60) % 60, sec % 60)
+    return datetime.datetime(y, mo, d, sec // 3600, (sec // 60) % 60, sec % 60)
+
+
+def shift_years(inp, k):
+    """the same case k years later (k a multiple of 4: same leap pattern between 1901 and 2099)"""
+    inp = json.loads(json.dumps(inp))
+    inp["T"]["y"] += k
+    for ln in inp["lines"]:
+        if ln["has"] and ln["y"]:
+            ln["y"] += k
+    return inp
 
 
 def fmt_stamp(dt, fmt, rng, spacepad):
@@ -482,7 +491,8 @@ def fmt_stamp(dt, fmt, rng, spacepad):
 
 def run_after(inp, rng, stats):
     hy = bool(inp["hy"])
-    base = rng.choice(BASES)
+    if not inp.get("concrete"):
+        inp = shift_years(inp, rng.choice(YEAR_SHIFTS))
     slots = sorted(rng.sample(range(0, 86400), 3))
     if rng.random() < 0.3:
         slots = [0, rng.randrange(1, 86399), 86399]
@@ -497,7 +507,8 @@ def run_after(inp, rng, stats):
         tf = list(fmts) if kind == "list" else dict(("fmt_%d" % i, f) for i, f in enumerate(fmts))
     spacepad = rng.random() < 0.5
     T = inp["T"]
-    Tdt = stamp(base, T["y"], T["d"], T["s"], slots)
+    Tdt = stamp(T["y"], T["mo"], T["d"], T["s"], slots)
+    ords = []
     sterms = rng.sample(TERMS, 2)
     smode = rng.choice(["str", "list1", "list2"]) if inp["filt"] else "none"
     need = {"none": [], "str": sterms[:1], "list1": sterms[:1], "list2": sterms}[smode]
@@ -517,10 +528,12 @@ def run_after(inp, rng, stats):
             words.insert(rng.randrange(0, len(words) + 1), h)
         body = " ".join(words)
         if ln["has"]:
-            dt = stamp(base, ln["y"] if hy else T["y"], ln["d"], ln["s"], slots)
+            # a year-less stamp is rendered from its month / day in the sought year (never 29 February)
+            dt = stamp(ln["y"] if hy else T["y"], ln["mo"], ln["d"], ln["s"], slots)
+            ords.append(dt.toordinal())
             ts = fmt_stamp(dt, rng.choice(fmts), rng, spacepad)
-            if hy and ((Key(ln) >= Key(T)) != (dt >= Tdt)):
-                raise Machinery("time rendering is not order preserving")
+            if (dt.toordinal() == Tdt.toordinal()) and ((ln["s"] >= T["s"]) != (dt >= Tdt)):
+                raise Machinery("slot rendering is not order preserving")
             style = rng.randrange(4)
             if style == 0:
                 text = "%s %s %s" % (ts, marker(i), body)
@@ -531,6 +544,7 @@ def run_after(inp, rng, stats):
             else:
                 text = "%s %s[%s] %s" % (marker(i), rng.choice(FILL), ts, body)
         else:
+            ords.append(0)
             text = rng.choice(["", "    ", "\t"]) + "%s %s" % (marker(i), body)
             if i == 0 or rng.random() < 0.5:
                 text = text.lstrip()
@@ -555,11 +569,9 @@ def run_after(inp, rng, stats):
     except Exception as e:      # noqa
         exc = type(e).__name__
     stats["after_calls"] = stats.get("after_calls", 0) + 1
-    return [dict(ev="after", inp=inp, res=res, exc=exc, text=lines[:6], fmt_used=str(tf), T=str(Tdt))]
-
-
-def Key(t):
-    return (t["y"] * 400 + t["d"]) * 3 + t["s"]
+    inp.pop("concrete", None)
+    return [dict(ev="after", inp=inp, res=res, exc=exc, tord=Tdt.toordinal(), ords=ords, text=lines[:6],
+                 fmt_used=str(tf), T=str(Tdt))]
 
 
 # ---------------------------------------------------------------------------
@@ -613,24 +625,47 @@ def rand_search(rng):
                                     num=rng.choice([-1, -1, 0, 1, 2, 3, 5, 20]), rev=rng.random() < 0.5))
 
 
+SPECIAL_DAYS = [(1, 1), (1, 2), (1, 15), (2, 3), (2, 4), (2, 5), (2, 28), (3, 1), (6, 30), (11, 26), (11, 27), (11, 28),
+                (12, 15), (12, 30), (12, 31)]
+
+
+def rand_date(rng, year, allow_feb29):
+    if rng.random() < 0.6:
+        mo, d = rng.choice(SPECIAL_DAYS)
+    else:
+        day = datetime.date(year, 1, 1) + datetime.timedelta(days=rng.randrange(0, 365))
+        mo, d = day.month, day.day
+    if (mo, d) == (2, 29) and not allow_feb29:
+        d = 28
+    return mo, d
+
+
 def rand_after(rng):
-    hy = rng.random() < 0.5
+    hy = rng.random() < 0.4
     filt = rng.random() < 0.4
     n = rng.randrange(0, 11)
-    T = dict(y=2, d=rng.choice([1, 2, 15, 34, 35, 36, 100, 180, 300, 330, 331, 332, 350, 364, 365]), s=rng.randrange(3))
+    ty = rng.choice([2015, 2016, 2017, 2019, 2020, 2020, 2021, 2023, 2024, 2024, 2028])
+    tmo, td = rand_date(rng, ty, False)
+    T = dict(y=ty, mo=tmo, d=td, s=rng.randrange(3))
+    tday = datetime.date(ty, tmo, td)
     lines = []
     for _ in range(n):
         if rng.random() < 0.4:
-            lines.append(dict(has=False, y=0, d=0, s=0, m=rng.random() < 0.6))
+            lines.append(dict(has=False, y=0, mo=0, d=0, s=0, m=rng.random() < 0.6))
+            continue
+        if rng.random() < 0.5:
+            day = tday + datetime.timedelta(days=rng.choice([-1, 0, 0, 0, 1]))        # around the sought time
+            y, mo, d = day.year, day.month, day.day
         else:
-            near = rng.random() < 0.6
-            d = min(365, max(1, T["d"] + rng.choice([-1, 0, 0, 0, 1]))) if near else rng.randrange(1, 366)
-            lines.append(dict(has=True, y=(rng.choice([1, 2, 2, 2, 3]) if hy else 0), d=d, s=rng.randrange(3),
-                              m=rng.random() < 0.6))
+            y = rng.choice([ty - 1, ty, ty, ty, ty + 1])
+            mo, d = rand_date(rng, y, hy)
+        if not hy and (mo, d) == (2, 29):
+            d = 28
+        lines.append(dict(has=True, y=(y if hy else 0), mo=mo, d=d, s=rng.randrange(3), m=rng.random() < 0.6))
     if not filt:
         for l in lines:
             l["m"] = True
-    return dict(lines=lines, T=T, hy=hy, filt=filt)
+    return dict(lines=lines, T=T, hy=hy, filt=filt, concrete=True)
 
 
 RUN = {"cmd": run_cmd, "doc": run_doc, "search": run_search, "after": run_after, "year": run_after}
